@@ -316,7 +316,7 @@ def dev(name, twin=False):
         print('UNSUPPORTED/COMPILE:', d.rendered[:1500])
     for d in ver:
         c = d.clause
-        print(f'-- {d.kind} in {d.fn}: {d.message}' + (f'  => clause {c.id} [{c.tag or "support"}] {c.kind} of {c.fn}: {c.text[:100]}' if c else ''))
+        print(f'-- {d.kind} in {d.fn}: {d.message}' + (f'  => clause {c.id} [{c.tag or "support"}] {c.kind} of {c.fn} (vc line {c.src_line}): {c.text[:100]}' if c else ''))
         if not c or '-v' in sys.argv: print(d.rendered[:1200])
     if '--times' in sys.argv:
         for k, v in sorted(r.fn_details.items(), key=lambda kv: -kv[1]['ms'])[:15]: print(v['ms'], 'ms', k)
